@@ -6,6 +6,7 @@ import (
 	"go/token"
 	"go/types"
 	"sort"
+	"strconv"
 	"strings"
 
 	"dawnverif/checker/core"
@@ -217,6 +218,8 @@ func runC08(p *core.Prog, r *core.Result) {
 		"R8.2 for every in-module value type with attributes, the names it advertises (AttrNames) are names it answers (Attr): the encoder's has-attrs branch never encodes a nil",
 		"R8.3 a pickler case whose arguments are an open environment (can contain the subject again, since recursion is enabled) needs an in-progress guard, because NEWOBJ results are memoized only after their arguments",
 		"R8.4 no nondeterminism source (clock, pid, random, directory order, addresses, Go-map order into an ordered sink) is reachable from the fingerprint computation",
+		"R8.11 a pickler case tells its subjects apart: the argument tuple of every case is computed from the value being pickled, unless the kind has a single value (a zero-size sentinel) - a constant encoding makes all values of a kind indistinguishable, so rebinding a global from one to another leaves the fingerprint unchanged",
+		"R8.10 exhaustiveness over value kinds: every concrete type that implements starlark.Value - in the Starlark interpreter package and in this module - is matched by a case of the encoder (by type, or through Sequence / IterableMapping / Iterable / HasAttrs) or of the host pickler; a kind without an encoding makes every target that references such a value unbuildable ('cannot pickle value of type …')",
 		"R8.9 whatever mutable state the pickler closure captures (the in-progress set behind the Recursion marker) is allocated by the call that creates the pickler: not a parameter fed from a pool or a package variable, so nothing one encoding did (least of all a failed one) can change what the next one emits",
 		"R8.8 a host value type whose contents are written at run time (a map or slice field updated by its methods) does not implement the interfaces the encoder pickles by content (IterableMapping, Sequence): such values (caches) enter the fingerprint as constants, not as what happens to be stored in them in this process",
 		"R8.7 the host pickler builds no (name, value) association lists of its own: only the lists returned by ModuleEnv/Env (one entry per binding, unique names) reach the unpickler's dictionary conversion, which collapses equal names",
@@ -347,6 +350,81 @@ func runC08(p *core.Prog, r *core.Result) {
 
 	// ---- R8.9 the pickler's own state lives for one encoding
 	checkPicklerStateFresh(p, r, picklers)
+
+	// ---- R8.10 every kind of value has an encoding
+	checkValueKindsEncodable(p, r, picklers)
+
+	// ---- R8.11 a pickler case tells its subjects apart
+	for _, pc := range allCases {
+		if pc.Ret == nil || pc.Name == "" {
+			continue
+		}
+		construct := fmt.Sprintf("%s#identifies:%s", fname(pc.Ret.Parent()), pc.Name)
+		host := pc.Ret.Parent()
+		var subject *ssa.Parameter
+		for _, prm := range host.Params {
+			if n, ok := prm.Type().(*types.Named); ok && n.Obj().Name() == "Value" {
+				subject = prm
+			}
+		}
+		dependsOnSubject := false
+		for _, e := range pc.Elems {
+			if e != nil && subject != nil && core.DependsOn(e, core.SliceOpts{Stores: true, ThroughCall: func(*ssa.Call) bool { return true }}, func(v ssa.Value) bool { return v == ssa.Value(subject) }) {
+				dependsOnSubject = true
+			}
+		}
+		if dependsOnSubject {
+			r.OK("R8.11", construct, p.InstrPos(pc.Ret), "the arguments pickled for a %s are computed from the value", pc.Name)
+			continue
+		}
+		// a constant encoding is right only for a kind with a single value: a zero-size type
+		singleton := false
+		if pc.Type != nil {
+			if st, ok := pc.Type.Underlying().(*types.Struct); ok && st.NumFields() == 0 {
+				singleton = true
+			}
+		} else {
+			// the case is selected by x.Type() == "K" on this path: the types answering K must all be zero-size
+			for f := range p.FactsAt(pc.Ret) {
+				bo, ok := f.Cond.(*ssa.BinOp)
+				if !ok || !f.Val || bo.Op != token.EQL {
+					continue
+				}
+				k, isConst := core.ConstString(bo.Y)
+				c, isCall := bo.X.(*ssa.Call)
+				if !isConst || !isCall || !c.Call.IsInvoke() || c.Call.Method.Name() != "Type" {
+					continue
+				}
+				n, all := 0, true
+				for _, ip := range p.SSA.AllPackages() {
+					for _, m := range ip.Members {
+						tn, ok := m.(*ssa.Type)
+						if !ok {
+							continue
+						}
+						mt := methodOf(p, tn.Type(), "Type")
+						if mt == nil || mt.Blocks == nil {
+							continue
+						}
+						rets := core.ReturnsOf(mt)
+						if len(rets) != 1 || len(rets[0].Results) != 1 {
+							continue
+						}
+						if s, ok := core.ConstString(rets[0].Results[0]); ok && s == k {
+							n++
+							if st, ok := tn.Type().Underlying().(*types.Struct); !ok || st.NumFields() != 0 {
+								all = false
+							}
+						}
+					}
+				}
+				if n > 0 && all {
+					singleton = true
+				}
+			}
+		}
+		r.Check(singleton, "R8.11", construct, p.InstrPos(pc.Ret), "a constant encoding for a kind that has a single value", fmt.Sprintf("every %s is pickled as the same constant: nothing of the value (its name, what it is bound to) enters the fingerprint, so a target function that reaches one through a global or a default has the same fingerprint after that binding is changed to a different %s - the edit does not re-run the target", pc.Name, pc.Name))
+	}
 
 	// ---- R8.7 the pickler builds no association lists of its own
 	nPk := 0
@@ -838,6 +916,153 @@ func checkPicklerCycleGuard(p *core.Prog, r *core.Result, picklers []*ssa.Functi
 
 var _ = constant.Int
 
+// methodOf returns the SSA function of the exported method `name` of t, or nil when t has none.
+func methodOf(p *core.Prog, t types.Type, name string) *ssa.Function {
+	sel := p.SSA.MethodSets.MethodSet(t).Lookup(nil, name)
+	if sel == nil {
+		return nil
+	}
+	return p.SSA.MethodValue(sel)
+}
+
+// checkValueKindsEncodable implements R8.10.
+func checkValueKindsEncodable(p *core.Prog, r *core.Result, picklers []*ssa.Function) {
+	encode := p.Func("pickle", "Encoder", "encode")
+	if encode == nil {
+		r.Unk("R8.10", "anchor:pickle.(*Encoder).encode", "-", "not found")
+		return
+	}
+	// the types some case asserts: the encoder's own functions and the host picklers with the helpers they call
+	var asserted []types.Type
+	typeNames := map[string]bool{}
+	seenFn := map[*ssa.Function]bool{}
+	var scan func(f *ssa.Function, depth int)
+	scan = func(f *ssa.Function, depth int) {
+		if f == nil || seenFn[f] || f.Blocks == nil || depth > 3 {
+			return
+		}
+		seenFn[f] = true
+		core.Instrs(f, func(in ssa.Instruction) {
+			if ta, ok := in.(*ssa.TypeAssert); ok {
+				asserted = append(asserted, ta.AssertedType)
+			}
+			// a kind recognised by its type name: x.Type() == "K"
+			if bo, ok := in.(*ssa.BinOp); ok && bo.Op == token.EQL {
+				for _, pr := range [][2]ssa.Value{{bo.X, bo.Y}, {bo.Y, bo.X}} {
+					if c, ok := pr[0].(*ssa.Call); ok && c.Call.IsInvoke() && c.Call.Method.Name() == "Type" {
+						if k, ok := core.ConstString(pr[1]); ok {
+							typeNames[k] = true
+						}
+					}
+				}
+			}
+			if c, ok := in.(ssa.CallInstruction); ok {
+				if h := core.Callee(c); h != nil && h.Pkg == f.Pkg {
+					scan(h, depth+1)
+				}
+			}
+		})
+		for _, a := range f.AnonFuncs {
+			scan(a, depth)
+		}
+	}
+	scan(encode, 0)
+	for _, pk := range picklers {
+		scan(pk, 0)
+	}
+	// the Value interface
+	var valueIface *types.Interface
+	var starPkg *types.Package
+	for _, ip := range p.SSA.AllPackages() {
+		if ip.Pkg.Path() == pkgStar {
+			starPkg = ip.Pkg
+			if tn, ok := ip.Pkg.Scope().Lookup("Value").(*types.TypeName); ok {
+				valueIface, _ = tn.Type().Underlying().(*types.Interface)
+			}
+		}
+	}
+	if valueIface == nil {
+		r.Unk("R8.10", "anchor:starlark.Value", "-", "interface not found")
+		return
+	}
+	covered := func(t types.Type) string {
+		for _, a := range asserted {
+			if types.Identical(a, t) {
+				return "a case for " + shortType(a)
+			}
+			if it, ok := a.Underlying().(*types.Interface); ok && !it.Empty() && types.Implements(t, it) {
+				// the Value interface itself is not a case
+				if types.Identical(a.Underlying(), valueIface) {
+					continue
+				}
+				return "the case for " + shortType(a)
+			}
+		}
+		// by type name: the Type method of t returns a constant that some case compares with
+		if m := methodOf(p, t, "Type"); m != nil && m.Blocks != nil {
+			rets := core.ReturnsOf(m)
+			if len(rets) == 1 && len(rets[0].Results) == 1 {
+				if k, ok := core.ConstString(rets[0].Results[0]); ok && typeNames[k] {
+					return "the case for values whose Type() is " + strconv.Quote(k)
+				}
+			}
+		}
+		return ""
+	}
+	// frozen exemptions: kinds that cannot be the value of a binding, a default, a free variable or a constant
+	exempt := map[string]string{
+		"*" + pkgStar + ".cell":        "a closure cell: Function.Env hands out its content, never the cell",
+		"*" + pkgStar + ".mark":        "not a starlark type",
+		pkgPickle + ".markT":           "the decoder's stack mark: never handed to the encoder",
+		"*" + pkgRoot + ".sourceFile":  "handed to Starlark only by the REPL's get_target/sources builtins (REPLEnv), never by a builtin of the module environment: no target function can reference one",
+		"*" + pkgRoot + ".indexTarget": "exists only in projects loaded from the index, where no module code runs; handed to Starlark only by the REPL's builtins",
+		"*" + pkgPickle + ".global":    "the decoder's intermediate for STACK_GLOBAL: never handed to the encoder",
+	}
+	var pkgs []*types.Package
+	if starPkg != nil {
+		pkgs = append(pkgs, starPkg)
+	}
+	for _, mp := range p.Pkgs {
+		pkgs = append(pkgs, mp.Types)
+	}
+	n := 0
+	for _, tp := range pkgs {
+		names := tp.Scope().Names()
+		for _, name := range names {
+			tn, ok := tp.Scope().Lookup(name).(*types.TypeName)
+			if !ok || tn.IsAlias() {
+				continue
+			}
+			named, ok := tn.Type().(*types.Named)
+			if !ok || named.TypeParams().Len() > 0 {
+				continue
+			}
+			if _, isIface := named.Underlying().(*types.Interface); isIface {
+				continue
+			}
+			for _, t := range []types.Type{named, types.NewPointer(named)} {
+				if !types.Implements(t, valueIface) {
+					continue
+				}
+				// a value type that implements Value is also implemented by its pointer: count the value form only
+				if _, isPtr := t.(*types.Pointer); isPtr && types.Implements(named, valueIface) {
+					continue
+				}
+				n++
+				key := t.String()
+				construct := "pickle#kind:" + shortType(t)
+				if how := covered(t); how != "" {
+					r.OK("R8.10", construct, p.Pos(tn.Pos()), "encodable through %s", how)
+				} else if why, ok := exempt[key]; ok {
+					r.OK("R8.10", construct, p.Pos(tn.Pos()), "exempt: %s", why)
+				} else {
+					r.Bad("R8.10", construct, p.Pos(tn.Pos()), "values of type %s implement starlark.Value but no case of the encoder or of the host pickler accepts them: a target function that references such a value (as a global, a default or a captured variable) cannot be fingerprinted - every build of it fails with 'cannot pickle value of type %s'", shortType(t), shortType(t))
+				}
+			}
+		}
+	}
+	r.Floor("R8.10", n, 12, "concrete types implementing starlark.Value")
+}
 
 // checkPicklerStateFresh implements R8.9.
 func checkPicklerStateFresh(p *core.Prog, r *core.Result, picklers []*ssa.Function) {
